@@ -661,6 +661,18 @@ func TestRun(t *testing.T) {
 				}
 			}
 		})
+		// complete stream frames whose body length sits on and around every length-class boundary (what is accepted must
+		// re-encode to a frame that decodes to the same message again)
+		for _, target := range []int{11, 12, 13, 14, 267, 268, 269, 270, 65803, 65804, 65805, 65806, 65807, 70000} {
+			for tkl := 0; tkl <= 8; tkl += 4 {
+				tok := gen.Fill(rand.New(rand.NewSource(int64(target*9+tkl))), tkl)
+				m := ref.Msg{Code: 0x02, Token: tok, Payload: gen.Fill(rand.New(rand.NewSource(int64(target))), target-1)}
+				workers[0].checkTCP(ref.EncodeTCP(m), "length-class-boundary")
+				m2 := ref.Msg{Code: 0x45, Token: tok, Opts: []ref.Opt{{ID: 65000, Val: gen.Fill(rand.New(rand.NewSource(int64(target+1))), target-3)}}}
+				workers[0].checkTCP(ref.EncodeTCP(m2), "length-class-boundary")
+				rec.DistinctAdd(2)
+			}
+		}
 		rec.Count("option_length_grid_inputs", int64(len(grid)*2))
 		rec.DistinctAdd(int64(len(grid) * 2))
 	}
